@@ -31,7 +31,10 @@ def main():
                 'evidence_file': 'evidence/%s.json' % i,
                 'replay_cmd_template': './check %s --replay {path}' % i,
                 'engine': 'lean4+correspondence',
-                'level_claimed': {'category': 'proof', 'text': c['level_text'],
+                'level_claimed': {'category': 'proof',
+                                  'text': (('PARTIAL PROOF (theorems carry the exact core; the rest is compared / measured on '
+                                            'the running code, not proved) — ' + c.get('partial_because', '') + '. ')
+                                           if c.get('scope') == 'partial' else 'PROOF — ') + c['level_text'],
                                   'design_ref': 'DESIGN.md ' + c['design_ref']},
                 'level_note': (TB % (i, i)) + '; ' + c['level_note'],
                 'technique': c['technique'],
